@@ -27,6 +27,9 @@ PROP = 'C18'
 WL_DIR = os.path.join(core.VERIF, 'workloads')
 WL_FILES = {'main': 'c18_main.py', 'alt': 'c18_alt.py', 'cap': 'c18_captured.py', 'fac': 'c18_factory.py', 'lib': 'c18_lib.py'}
 CTX_NAMES = [None, 'FP64', 'FP32', 'FP16', 'RTZ16', 'RTP16', 'RTN32', 'RAZ8', 'MP5', 'FX4', 'REAL', 'FXF', 'MP40', 'FXM']
+FLOAT_CTXS = ['FP64', 'FP32', 'FP16', 'RTZ16', 'RTP16', 'RTN32', 'RAZ8', 'MP5', 'MP40']
+FIXED_CTXS = ['FX4', 'FXM', 'FXF']
+OTHER_CTXS = [None, 'REAL', 'FP64']
 HOT = frozenset(['eval', 'compile', '_compile', 'to_value', 'from_value', '_mpfr_call_with_prec', '__iter__', 'mpfr_call',
                  '_visit_context', '_normalize', 'register', '_func_ctx', '_call_fpy', '_eval_call', 'round',
                  '_default_function_call', 'make_namespace', '__call__'])
@@ -347,13 +350,16 @@ def gen_run(seed: int, tier: str, sub: str) -> dict:
         # arguments, several contexts -- "the same function under another context" as history
         cfg['starve'] = r.choice([0.0, 0.0, 0.3, 0.7])
         sns = 'lib' if rot % 4 == 3 else 'main'
-        amb = [n for n in meta[sns].get('AMBIENT', []) if n in meta[sns]['SIG']]
+        amb = [n for n in meta[sns].get('BARE' if sns == 'main' else 'AMBIENT', []) if n in meta[sns]['SIG']]
         names = rotate(amb, rot, r.randint(1, 2))
         if sns == 'main' and rot % 3 == 0:
             names = rotate(m['PINNED'], rot // 3, 1) + names[:1]
         for name in names:
             args = catalogue(sns, name, meta[sns]['SIG'][name])[r.randrange(4)]
-            for cname in r.sample(CTX_NAMES, r.randint(3, 5)):
+            # always float formats of different widths next to a fixed-point grid, plus whatever else
+            ctxs = r.sample(FLOAT_CTXS, 2) + r.sample(FIXED_CTXS, 1) + r.sample(OTHER_CTXS, r.randint(0, 2))
+            r.shuffle(ctxs)
+            for cname in ctxs:
                 call_pool.append((sns, name, args, cname))
     elif shape == 'failure':
         # failure runs: programs that fail half-way (below a call, inside nested `with` blocks, in a
